@@ -596,6 +596,40 @@ impl Generator {
                 trace.ops.push(gen_op(&mut rng, &info, k));
             }
         }
+        // Faults that name a glyph (`...#g<id>`): aim some of the per-glyph ops at that glyph.
+        let focus_gids: Vec<u16> = trace
+            .faults
+            .iter()
+            .filter_map(|f| match f {
+                Fault::Set { field, .. } | Fault::Write { field, .. } => field
+                    .rsplit_once("#g")
+                    .and_then(|(_, g)| g.trim_end_matches("@file").parse::<u16>().ok()),
+                _ => None,
+            })
+            .collect();
+        if !focus_gids.is_empty() {
+            for op in trace.ops.iter_mut() {
+                let g = *rng.pick(&focus_gids);
+                match op {
+                    Op::Outline { gid, .. } | Op::HAdvance { gid } | Op::VAdvance { gid } | Op::GlyphImage { gid, .. }
+                        if rng.pct(55) =>
+                    {
+                        *gid = g
+                    }
+                    Op::Subset { ids } | Op::PrinceSubset { ids, .. } if rng.pct(60) && !ids.contains(&g) => {
+                        ids.push(g)
+                    }
+                    Op::GlyphNames { ids } if rng.pct(40) => ids.push(g),
+                    _ => {}
+                }
+            }
+            // an immediate second look at the same glyph on the same long-lived object
+            if prop == "C03" && rng.pct(50) {
+                let g = *rng.pick(&focus_gids);
+                trace.ops.push(Op::Outline { gid: g, tuple: None });
+                trace.ops.push(Op::Outline { gid: g, tuple: None });
+            }
+        }
         if info.broken && trace.mode == Mode::Provider {
             trace.mode = Mode::Image;
             trace.faults.retain(|f| f.targets().iter().all(|t| t == "file"));
